@@ -2,6 +2,7 @@ import AkVerif.Lemmas.LLFactAll
 import AkVerif.Lemmas.LLSession
 import AkVerif.Lemmas.LLExpand3
 import AkVerif.Lemmas.LLTokens
+import AkVerif.Lemmas.LLTmpl
 /-!
 # C01 — every parse result is a valid derivation of the user's grammar
 
@@ -112,14 +113,44 @@ theorem parse_from_valid (inp : CtorIn) (P : Parser) (hP : construct inp = .ok P
 
 /-- **A parser object has no memory between calls.**  In the model `parse` / `parseFrom` /
 `is_ambiguous` are functions of the constructed parser, the start symbol and the tokens; the state
-the driver threads through a sequence of requests is the parser itself, and every request other than
-`g` (construct) and `reset` leaves it unchanged — so the answer to a call does not depend on the
-calls made before it (explicit start symbol then default, parse after a failed parse, …).  The
-correspondence issues such call sequences on one real parser object. -/
-theorem no_memory (st : Option Parser) (line : String)
-    (h1 : ∀ rest, Ak.Proto.splitWs line ≠ "reset" :: rest) (h2 : ∀ args, Ak.Proto.splitWs line ≠ "g" :: args) :
+the driver threads through a sequence of requests is the list of constructed parsers plus the index of
+the current one, and every request other than `g` (construct), `use` (select) and `reset` leaves it
+unchanged — so the answer to a call does not depend on the calls made before it (explicit start symbol
+then default, parse after a failed parse, …).  The correspondence issues such call sequences on one
+real parser object. -/
+theorem no_memory (st : LL.Drv.DState) (line : String)
+    (h1 : ∀ rest, Ak.Proto.splitWs line ≠ "reset" :: rest) (h2 : ∀ args, Ak.Proto.splitWs line ≠ "g" :: args)
+    (h3 : ∀ k, Ak.Proto.splitWs line ≠ ["use", k]) :
     (LL.Drv.handle st line).1 = st :=
-  handle_keeps_parser st line h1 h2
+  handle_keeps_state st line h1 h2 h3
+
+/-- **A parser's behaviour depends on its own construction arguments only.**  No request (constructing
+further parsers — with the same symbol names, with templates —, parsing with any of them) alters an
+existing parser object: the list of parsers only grows at the end.  The correspondence interleaves 2-3 real
+parser objects with overlapping symbol names in one process. -/
+theorem parsers_independent (st : LL.Drv.DState) (line : String)
+    (h1 : ∀ rest, Ak.Proto.splitWs line ≠ "reset" :: rest) :
+    ∃ new, (LL.Drv.handle st line).1.slots = st.slots ++ new :=
+  handle_slots_prefix st line h1
+
+/-- the driver's constructor (`constructG`, which also takes the productions generated by templates as
+data) is `construct` when the dictionary has no templates -/
+theorem plain_is_construct (inp : CtorIn) : constructG Tmpl.none inp = construct inp :=
+  constructG_none inp
+
+/-- **The property for dictionaries with production templates** (`ProdSequence`, `ListProds`, `MapProds`;
+the productions a template generates enter the model as data `T`, their derivation is C05's subject): the
+returned tree is a derivation of the expanded dictionary.  `PlainNames`: no name of the dictionary has the shape
+of a factorisation helper (`X__Snn`) — automatic for names without `__`, a decidable condition on the generated
+names (`S__ELEMENT`, `L__TAIL`, … satisfy it). -/
+theorem parse_valid_templates (T : Tmpl) (inp : CtorIn) (P : Parser) (hP : constructG T inp = .ok P)
+    (hpl : PlainNames inp.prods) (hstart : inp.start ∈ inp.prods.map (·.1))
+    (raw : List (List Char × List Char))
+    (hEnd : ∀ tok ∈ (P.tokens raw).dropLast, tok.name ≠ endSym)
+    (fuel : Nat) (t : Tree Sym) (h : P.parse raw fuel = .ok t) :
+    t.name = P.start ∧ Derives P.terminals P.userProds t ∧ NoHelper P.suffix t ∧
+      t.yield = (P.tokens raw).dropLast :=
+  parse_valid_G hP hpl hstart raw hEnd fuel t h
 
 /-! Non-vacuity: the nested-common-prefix grammar `A → x y z | x y | x` (start `A`), both
 `smart_factorization` values, input `x y`: the constructor succeeds and `parse` returns a tree
